@@ -2,7 +2,7 @@
 import sys, time
 import z3
 from . import api
-from .solve import load_sidecars, check, generate, extract_inputs
+from .solve import load_sidecars, check, generate, extract_inputs, ground_axioms
 
 def main():
     args = sys.argv[1:]
@@ -16,6 +16,7 @@ def main():
     for i, o in enumerate(obls):
         if sub not in o.name: continue
         pc = tuple(o.pc) + tuple(ctx.scope_assumptions if expand else ())
+        pc = tuple(ground_axioms(pc, o.goal)) if expand else pc
         r, dt, model, s = check(pc, None if o.kind=="cover" else o.goal, t)
         print(i, o.name, o.kind, r, round(dt,2), o.note[:80])
         if r == "sat" and "--model" in args:
